@@ -253,6 +253,12 @@ POOL_KEYS = {
     "PoolConnsAlive": ("pool-closed-conn-kept", "a pool kept a connection whose driver end is closed"),
     "FillAfterClose": ("pool-fill-after-close", "a fill started on a closed pool"),
     "CloseTwice": ("pool-close-twice", "a pool was closed twice"),
+    "HostBound": ("host-conns-exceed-numconns", "the dialer sees more open connections to one host than NumConns at quiescence "
+                                                 "(two pools for one host, or a pool above its size)"),
+    "NoOrphanPool": ("host-pool-orphaned", "connections to a host stay open although the host's pool is no longer in the session's map "
+                                           "(a pool that removeHost / Session.Close can no longer reach)"),
+    "FillEnds": ("pool-filling-never-ends", "pool.filling stayed true after the fill had finished: every later fill() returns at once, "
+                                            "a lost connection is never replaced"),
     "NoSelfDeadlock": ("pool-lock-deadlock", "a pool method waits for pool.mu while it holds it (closing a connection whose socket "
                                              "Close() reports an error re-enters hostConnPool.HandleError); Close/Pick/Size of the pool never return again"),
 }
@@ -321,6 +327,7 @@ def run(ctx):
 
     bg = []
     bg.append(pool.submit(must, "MC_Pool", "MC_Pool_quick.cfg", workers=W or 4, timeout=600, extra=["-lncheck", "final"]))
+    bg.append(pool.submit(must, "MC_Pool", "MC_Pool_size1.cfg", workers=W or 2, timeout=600, extra=["-lncheck", "final"]))
     bg.append(pool.submit(must, "Lifecycle", "Lifecycle_fixed.cfg", workers=W or 6, timeout=600))
     bg.append(pool.submit(must, "Lifecycle", "Lifecycle_fixed_live.cfg", workers=W or 4, timeout=900, extra=["-lncheck", "final"]))
     bg.append(pool.submit(must, "Lifecycle", "Lifecycle_deb_live.cfg", workers=W or 2, timeout=600, extra=["-lncheck", "final"]))
@@ -328,6 +335,8 @@ def run(ctx):
         bg.append(pool.submit(must, "MC_Pool", "MC_Pool_thorough.cfg", workers=W or 8, timeout=1500, heap="8g", extra=["-lncheck", "final"]))
         bg.append(pool.submit(must, "Lifecycle", "Lifecycle_fixed_live2.cfg", workers=W or 4, timeout=1500, heap="8g", extra=["-lncheck", "final"]))
     exh = [pool.submit(must, "Lifecycle", c, workers=2, timeout=300, extra=["-noGenerateSpecTE"]) for c, _, _ in DEFECT_EXHIBITS]
+    bg.append(pool.submit(must, "PolicyPool", "PolicyPool_quick.cfg", workers=2, timeout=300, extra=["-lncheck", "final"]))
+    exh_policy = pool.submit(must, "PolicyPool", "PolicyPool_x_racyadd.cfg", workers=2, timeout=300, extra=["-noGenerateSpecTE"])
     exh_pool = pool.submit(must, "MC_Pool", "MC_Pool_defect.cfg", workers=2, timeout=300, extra=["-noGenerateSpecTE"])
     exh_pool2 = [pool.submit(must, "MC_Pool", c, workers=2, timeout=300, extra=["-noGenerateSpecTE"]) for c, _ in POOL_EXHIBITS]
 
@@ -384,6 +393,22 @@ def run(ctx):
         raise vf.Inconclusive("pool edge dump produced nothing")
     g = PoolGraph(pinit[0], pedges)
     scheds, nmacro, _ = pool_schedules(g, 2)
+    # sizes 1 and 3 as well (size 1: the only connection dies -> refilled; size 3: one trigger, connectMany of 2)
+    extra_graphs = []
+    for size, cfg in ((1, "MC_Pool_edges1.cfg"), (3, "MC_Pool_edges3.cfg")):
+        rx = vf.run_tlc(ctx, "MC_Pool", cfg, workers=1, timeout=600, deadlock=False, name="pool_edges%d" % size,
+                        extra=["-noGenerateSpecTE"])
+        if not rx.ok:
+            raise vf.Inconclusive("pool edge dump (size %d) failed: %s" % (size, rx.error or rx.violated))
+        gx = PoolGraph(vf.tlc_printed(rx.out, "INIT")[0], vf.tlc_printed(rx.out, "EDGE"))
+        sx, nx, _ = pool_schedules(gx, size)
+        for s_ in sx:
+            s_["n"] += len(scheds)
+        scheds += sx
+        nmacro += nx
+        extra_graphs.append(dict(size=size, states=len(gx.nodes), edges=gx.nedges, gate_level_edges=nx, schedules=len(sx)))
+        note(rx, cfg)
+    n_graph_scheds = len(scheds)
     ctx.log("pool graph walk: %d states, %d edges, %d gate-level edges, %d schedules, %d steps" % (
         len(g.nodes), g.nedges, nmacro, len(scheds), sum(len(s["steps"]) for s in scheds)))
     nwalk = 0
@@ -435,6 +460,9 @@ def run(ctx):
         "deb": pool.submit(vf.run_gotest, ctx, binary, "^TestVfC17Debouncer$",
                            env={"VF_SCHEDULES": dsp, "VF_TRACES": dtr, "VF_PAR": 8, "VF_WATCHDOG_MS": 1500}, timeout=900, check=False),
         "scen": pool.submit(vf.run_gotest, ctx, binary, "^TestVfC17Scenarios$", env={"VF_TRACES": scn}, timeout=300, check=False),
+        "policy": pool.submit(vf.run_gotest, ctx, binary, "^TestVfC17PolicyPool$",
+                              env={"VF_TRACES": os.path.join(ctx.tmp, "policy_traces.ndjson"), "VF_TRIALS": 90 if quick else 300},
+                              timeout=600, check=False),
         "sess": pool.submit(vf.run_gotest, ctx, binary, "^TestVfC17Sessions$",
                             env={"VF_TRACES": str_, "VF_NRUNS": nruns, "VF_BATCH": 8}, timeout=900, check=False),
     }
@@ -542,6 +570,21 @@ def run(ctx):
         ctx.log("scenario %-36s %s%s" % (r["name"], r["obs"], ("  -> " + r["viol"]) if r["viol"] else ""))
         if r["viol"]:
             ctx.violation(r["viol"], r["what"] + " [scenario " + r["name"] + "]", dict(observation=r["obs"], detail=r["detail"]))
+
+    # ---- 4c'. the map of host pools under concurrent addHost / removeHost bursts
+    poltr = os.path.join(ctx.tmp, "policy_traces.ndjson")
+    polsum = json.loads(re.search(r"^VFSUMMARY (.*)$", outs["policy"], re.M).group(1))
+    if polsum["Errors"] > polsum["Trials"] // 4 or polsum["Trials"] == 0:
+        raise vf.Inconclusive("policy-pool driver: %s" % polsum)
+    polviol, _, pollines, rmon4 = _monitor(ctx, poltr, "mon_policy")
+    note(rmon4, "Trace_PoolMon(policy pool)")
+    polrecs = {(r["sched"], r["k"]): r for r in vf.read_ndjson(poltr)}
+    for v in polviol[:10]:
+        key, what = POOL_KEYS.get(v["kind"], ("pool-" + v["kind"], v["kind"]))
+        rec = polrecs.get((v["sched"], v["k"]), {})
+        ctx.violation(key, "%s [concurrent addHost/removeHost burst on a real policyConnPool: %d open, NumConns %d, %d adders / %d removers]" % (
+            what, rec.get("a", -1), rec.get("size", -1), rec.get("gor", 0) // 10, rec.get("gor", 0) % 10), rec)
+    ctx.log("policy pool: %d bursts, %d records evaluated by TLC, %d invariant violations" % (polsum["Trials"], pollines, len(polviol)))
 
     # ---- 4d. randomized Session runs validated by TLC
     sviol, sdrift, slines, rmon3 = _monitor(ctx, str_, "mon_sess")
@@ -652,6 +695,10 @@ def run(ctx):
         if r.violated != expect:
             raise vf.Inconclusive("model %s should exhibit %s but gave violated=%s error=%s" % (cfg, expect, r.violated, r.error))
         note(r, cfg)
+    r, _ = exh_policy.result()
+    if r.violated not in ("NoOrphanPool", "HostBound"):
+        raise vf.Inconclusive("PolicyPool.tla with the racy addHost should violate NoOrphanPool / HostBound, got %s / %s" % (r.violated, r.error))
+    note(r, "PolicyPool_x_racyadd")
     r, _ = exh_pool.result()
     if r.violated != "ReportedNotInPool":
         raise vf.Inconclusive("Pool.tla with Defect_AddDeadConn = TRUE should violate ReportedNotInPool, got %s / %s" % (r.violated, r.error))
@@ -664,9 +711,9 @@ def run(ctx):
     sample = scheds[len(scheds) // 3]
     ctx.cov = dict(
         states=states, transitions=trans,
-        traces_validated_against_impl=psum["Schedules"] + len(dres) + nsess + len(sres),
+        traces_validated_against_impl=psum["Schedules"] + len(dres) + nsess + len(sres) + polsum["Trials"],
         exhaustive=True,
-        pool_graph_states=len(g.nodes), pool_graph_edges=g.nedges, pool_gate_level_edges=nmacro,
+        pool_graph_states=len(g.nodes), pool_graph_edges=g.nedges, pool_gate_level_edges=nmacro, pool_graphs_other_sizes=extra_graphs,
         pool_schedules_replayed=psum["Schedules"], pool_steps_replayed=psum["Steps"], pool_schedules_following_model=followed,
         pool_schedules_diverged=len(diverged), pool_simulation_walks=nwalk, pool_trace_records_monitored=plines,
         debouncer_behaviours_replayed=len(dres), debouncer_counterexample_reproduced=bool(cexr["hang"]),
@@ -674,7 +721,7 @@ def run(ctx):
         refresh_listeners_unanswered=unanswered, debouncer_goal_behaviours=len(DEB_GOALS),
         refresh_listeners_watched=sum(len(r["req"]) for r in dres),
         scenarios={r["name"]: (r["viol"] or "ok") + " | " + r["obs"] for r in sres},
-        session_runs=nsess, session_records_monitored=slines, session_setup_errors=ssum["Errors"],
+        policy_pool_bursts=polsum["Trials"], session_runs=nsess, session_records_monitored=slines, session_setup_errors=ssum["Errors"],
         race_reports_in_driver=races if not quick else "not run in the quick tier",
         model_configs=configs,
         samples=[dict(kind="pool schedule", n=sample["n"], steps=["%s %s%s" % (s["cmd"], s["f"], s["c"] or "") for s in sample["steps"]],
